@@ -2,7 +2,7 @@
 from lib.coqterm import cbool, clist, copt, ccodepoints, cN
 
 ID = "C45"
-QUICK_N = 6000
+QUICK_N = 5000
 THOROUGH_N = 90000
 SHARD = 400
 COQ_PRELUDE = "From MV Require Import Model.Command.\n"
@@ -349,13 +349,21 @@ def oracle(case, obs):
     expl = _explained(line, kt, DEVS)
     if out != expl:
         return [{"key": "unexpected-outcome", "what": what}]
-    keys = [d for d in DEVS if _explained(line, kt, [x for x in DEVS if x != d]) != expl]
-    if k == "rt" and any('"' in a and "'" in a for a in case["args"]) and "\\x22" in line:
+    # attribute to the smallest sets of known deviations that reproduce the observation
+    import itertools
+    keys = set()
+    for size in range(0, len(DEVS) + 1):
+        hits = [set(d) for d in itertools.combinations(DEVS, size) if _explained(line, kt, d) == out]
+        if hits:
+            keys = set().union(*hits)
+            break
+    if k == "rt" and "\\x22" in line and any('"' in a and "'" in a for a in case["args"]):
+        # the line already carries the x22 rewriting; only a str-typed parameter undoes it
         if SIGS[case["cmd"]][1] == "arg" or not keys:
-            keys.append("both-quotes-x22")
+            keys.add("both-quotes-x22")
     if not keys:
         return [{"key": "unexpected-outcome", "what": what}]
-    return [{"key": key, "what": what} for key in keys]
+    return [{"key": key, "what": what} for key in sorted(keys)]
 
 
 def nontrivial(case, obs):
